@@ -607,7 +607,14 @@ impl Core {
         out
     }
     pub fn point_eq(&mut self, a: PointId, b: PointId) -> bool {
-        let natural = self.shadow_form(a) == self.shadow_form(b);
+        let mut natural = self.shadow_form(a) == self.shadow_form(b);
+        // scenario switch: treat every comparison with the identity as successful, so that execution continues
+        // past a failing final check (used to observe later chunks of a batch)
+        if (a == 0 || b == 0) && a != b {
+            if let Some(o) = self.forced.get(&("final_eq".to_string(), 0)) {
+                natural = *o;
+            }
+        }
         self.decide("point_eq", natural, json!({"a":a,"b":b}))
     }
     pub fn scalar_eq(&mut self, a: NodeId, b: NodeId) -> bool {
